@@ -63,7 +63,7 @@ def ssl2_header(ctx, report, RULE='C06.R4'):
                 raise NotEvaluable(show(v))
             return leaf
         try:
-            for n in (0, 1, 255, 256, 259, 16383, 16384, 20033, 32767):
+            for n in (range(0, 32768) if ctx.thorough else (0, 1, 255, 256, 259, 16383, 16384, 20033, 32767)):
                 report.count(RULE)
                 got = b''
                 for e in head:
@@ -121,7 +121,7 @@ def ssl2_parse_header(ctx, report, c, RULE='C06.R4'):
         return leaf
     try:
         for b0 in range(256):
-            for b1 in (0, 1, 0x41, 0xff):
+            for b1 in (range(256) if ctx.thorough else (0, 1, 0x41, 0xff)):
                 report.count(RULE)
                 got = evaluate(length, leaf_for(b0, b1))
                 gpad = evaluate(pad, leaf_for(b0, b1))
@@ -139,4 +139,4 @@ def ssl2_parse_header(ctx, report, c, RULE='C06.R4'):
         report.add(RULE, p.construct + '@header', 'record length / padding is not a function of the header bytes: %s' % e)
         return
     report.sample({'rule': RULE, 'parser_length_expr': show(length), 'padding_expr': show(pad),
-                   'tabulated': '256 values of byte 0 x 4 values of byte 1, both header forms'})
+                   'tabulated': '256 values of byte 0 x %d values of byte 1, both header forms' % (256 if ctx.thorough else 4)})
